@@ -66,12 +66,15 @@ def run_suite(dst):
 
 def main(argv):
     tier, suite, sel, props_filter = "quick", False, [], None
+    suite_only = False
     i = 0
     while i < len(argv):
         if argv[i] == "--tier":
             tier = argv[i + 1]; i += 2
         elif argv[i] == "--suite":
             suite = True; i += 1
+        elif argv[i] == "--suite-only":
+            suite = True; suite_only = True; i += 1
         elif argv[i] == "--props":
             props_filter = set(argv[i + 1].split(",")); i += 2
         else:
@@ -93,7 +96,7 @@ def main(argv):
             if suite:
                 rec["suite_passes"] = run_suite(dst)
             for prop in m["props"]:
-                if props_filter and prop not in props_filter:
+                if suite_only or (props_filter and prop not in props_filter):
                     continue
                 env = dict(os.environ)
                 env["VERIF_REPO"] = dst
